@@ -8,12 +8,14 @@ import (
 	"os"
 	"path/filepath"
 	"strings"
+	"syscall"
 	"testing"
 	"time"
 
 	"pgregory.net/rapid"
 
 	"verif/ev"
+	"verif/gen"
 	"verif/rp"
 	"verif/sandbox"
 )
@@ -79,58 +81,60 @@ func TestPlan(t *testing.T) {
 	case "C07", "C11", "C15":
 		// the binary leg of the formatter properties: `spok --fmt` on generated files
 		p.Rule = "binary leg: generated spokfiles (random layouts, comments in every position, side-effect-free loading) formatted in place by `spok --fmt` in the sandbox; the file afterwards is parsed in-process and judged by the same projection as the in-process leg (C11: a second --fmt leaves it byte-identical). Non-trivial: the file changed; distinct by source"
-		binShards("^TestFmtBinary$", 8, 40, 16, 600)
+		binShards("^TestFmtBinary$", 8, 40, 32, 1500)
 		p.Shards = append(p.Shards, ev.ShardSpec{Name: "fmtboundary-0", Test: "^TestFmtBoundary$", TimeoutS: 900})
 	case "C06":
 		p.Rule = "binary leg: generated spokfiles (random layouts, comments, lines around 64 KiB) are handed to the real CLI as a file; what `spok --fmt` writes back is the rendering of the tree the CLI built, and must equal the rendering of the tree the parser builds from the same text in-process (so reading the file — encoding, line ends, long lines — loses or alters nothing). Non-trivial: the file changed; distinct by source"
-		binShards("^TestFmtBinary$", 8, 40, 16, 600)
+		binShards("^TestFmtBinary$", 8, 40, 32, 1500)
 		p.Shards = append(p.Shards, ev.ShardSpec{Name: "fmtboundary-0", Test: "^TestFmtBoundary$", TimeoutS: 900})
+		p.Shards = append(p.Shards, ev.ShardSpec{Name: "readfaults-0", Test: "^TestReadFaults$", TimeoutS: 900})
 	case "C04":
 		p.Rule = "binary leg: one task with literal and glob dependencies; the digest spok records in .spok/cache.json after a run from a fresh cache must be the same however spok is pointed at the project (from the project, a nested directory, --spokfile relative / absolute from the project, its parent, a sibling directory; project directories with odd names), must change when a dependency is edited, must not change when another file is, and must return when the edit is undone"
-		binShards("^TestDigestBinary$", 8, 30, 16, 300)
+		binShards("^TestDigestBinary$", 8, 30, 32, 800)
 	case "C18":
 		p.Level = "fault_enumeration"
 		p.Rule = "binary leg: a task whose literal dependencies are regular / empty / directory / missing / dangling link / link / unreadable (mode 0) files in every mixture of up to 6, run through the CLI as an unprivileged user under {plain, --force, --json, --quiet}: spok never dies (signal, panic); with an unopenable dependency and no --force it stops with a message, exits non-zero and does not run the task; otherwise it succeeds"
-		binShards("^TestHashBinary$", 8, 50, 16, 500)
+		binShards("^TestHashBinary$", 8, 50, 32, 1500)
 	case "C01", "C02":
 		// the binary leg of the cache properties: incremental runs through the real CLI
 		p.Rule = "binary leg: programs of 1-3 tasks (no / literal / glob file dependency, task dependencies, selected by name or as the default task) run 2-6 times through the CLI under {plain, --json, --quiet, --debug, --json --quiet} from the project root or a nested directory, with edits of dependency files in between; the side-effect log must show a task running exactly when it has no file dependency, never ran, or a file it depends on was edited since its last run"
-		binShards("^TestSkipBinary$", 8, 40, 16, 500)
+		binShards("^TestSkipBinary$", 8, 40, 32, 1500)
 		p.Shards = append(p.Shards, ev.ShardSpec{Name: "skiptemplates-0", Test: "^TestSkipTemplates$", TimeoutS: 900})
 	case "C08":
 		// the binary leg of C08: the CLI reports exactly the parser's located error for the file's text
 		p.Rule = "binary leg: permissive-grammar texts (with blank / whitespace-only lines added in front or behind) that do not parse are written as a spokfile; `spok --show` and `spok --fmt` must terminate, exit non-zero without a Go panic and print the very error the parser gives for that text (same line number, same quoted line)"
-		binShards("^TestErrBinary$", 8, 60, 16, 800)
+		binShards("^TestErrBinary$", 8, 60, 32, 2000)
 	case "C03":
 		// the binary leg of C03: the selected task comes from the command line, from the default task or from `--clean`
 		p.Rule = "binary leg: graphs on 1-4 tasks (cyclic and acyclic, optional undefined dependency) where the first task is selected by name, implicitly as the default task (bare `spok`) or as the user-defined clean task (`spok --clean`), with and without --force/--json/--quiet; the side-effect log must show the selected task's closure exactly once, dependencies first, or an error and no command at all"
-		binShards("^TestGraphBinary$", 8, 50, 16, 600)
+		binShards("^TestGraphBinary$", 8, 50, 32, 2000)
+		p.Shards = append(p.Shards, ev.ShardSpec{Name: "graphtemplates-0", Test: "^TestGraphTemplates$", TimeoutS: 900})
 	case "C05":
 		// output globs through the CLI: --clean removes exactly the files the pattern denotes
 		p.Rule = "binary leg: project trees x spokfiles whose outputs are glob patterns only (incl. patterns whose matches are string-prefix siblings such as bin/app and bin/app.sha256); `spok --clean` must remove exactly the files the reference matcher says each pattern denotes"
-		binShards("^TestCleanGlobs$", 8, 40, 16, 500)
+		binShards("^TestCleanGlobs$", 8, 40, 32, 1500)
 		// dependency globs through the CLI: which edits make a task run again
 		p.Rule += "; and the incremental-run leg of C01/C02 (programs with glob dependencies, spokfile optionally a symbolic link into another directory, optionally run from elsewhere with --spokfile, files of the same names edited outside the project): a task runs again exactly when a file its pattern denotes was edited"
 		prefix = "binskip"
-		binShards("^TestSkipBinary$", 8, 40, 16, 400)
+		binShards("^TestSkipBinary$", 8, 40, 32, 1000)
 		p.Shards = append(p.Shards, ev.ShardSpec{Name: "skiptemplates-0", Test: "^TestSkipTemplates$", TimeoutS: 900})
 	case "C14":
 		// the binary leg of C14: --force with explicitly and implicitly selected tasks (default task, clean task)
 		p.Rule = "binary leg: programs of 1-3 tasks (file dependencies, task dependencies) run once so that every task is cached, then run with --force selected by name, through the default task (`spok --force`) or through a user-defined clean task (`spok --clean --force`), optionally with --json/--quiet; every task of the closure must execute again and none be reported skipped"
-		binShards("^TestForceBinary$", 8, 40, 16, 400)
+		binShards("^TestForceBinary$", 8, 40, 32, 1500)
 	case "C13":
-		binShards("^TestVars$", 16, 150, 16, 1300)
+		binShards("^TestVars$", 16, 150, 32, 3000)
 		p.Shards = append(p.Shards, ev.ShardSpec{Name: "inprocess-0", Test: "^TestVarsInProcess$", TimeoutS: 600})
 	case "C09":
-		binShards("^TestFail$", 16, 60, 16, 1300)
+		binShards("^TestFail$", 16, 60, 32, 4000)
 	case "C20":
-		binShards("^TestReport$", 16, 40, 16, 1000)
+		binShards("^TestReport$", 16, 40, 32, 3000)
 	case "C19":
-		binShards("^TestWrite$", 16, 80, 16, 1500)
+		binShards("^TestWrite$", 16, 80, 32, 3000)
 		p.Shards = append(p.Shards, ev.ShardSpec{Name: "writetemplates-0", Test: "^TestWriteTemplates$", TimeoutS: 900})
 	case "C10":
 		p.Level = "fault_enumeration"
-		binShards("^TestKill$", 16, 25, 16, 350)
+		binShards("^TestKill$", 16, 25, 32, 1200)
 		p.Shards = append(p.Shards, ev.ShardSpec{Name: "prefixes-0", Test: "^TestKillPrefixes$", TimeoutS: 3600})
 		sc := ev.RangeShards("syscalls", "^TestKillSyscalls$", 48, 1, nil)
 		for i := range sc {
@@ -138,7 +142,7 @@ func TestPlan(t *testing.T) {
 		}
 		p.Shards = append(p.Shards, sc...)
 	case "C12":
-		binShards("^TestClean$", 16, 60, 16, 1300)
+		binShards("^TestClean$", 16, 60, 32, 3000)
 		p.Shards = append(p.Shards, ev.ShardSpec{Name: "cleantemplates-0", Test: "^TestCleanTemplates$", TimeoutS: 900})
 	case "C17":
 		p.CrashIsViolation = true
@@ -152,13 +156,15 @@ func TestPlan(t *testing.T) {
 		p.Shards = append(p.Shards, sh...)
 		nb, cb := 8, 40
 		if ev.Thorough() {
-			nb, cb = 16, 300
+			nb, cb = 32, 1500
 		}
 		bs := ev.RapidShards("binary", "^TestFindBinary$", nb, cb, nil)
 		p.Shards = append(p.Shards, bs...)
 		p.Shards = append(p.Shards, ev.ShardSpec{Name: "unprivileged-0", Test: "^TestFindUnprivileged$", AsNobody: true, TimeoutS: 900})
 		p.Shards = append(p.Shards, ev.ShardSpec{Name: "relative-0", Test: "^TestFindRelative$", TimeoutS: 600})
 		p.Shards = append(p.Shards, ev.ShardSpec{Name: "deep-0", Test: "^TestFindDeep$", TimeoutS: 1200})
+		p.Shards = append(p.Shards, ev.ShardSpec{Name: "names-0", Test: "^TestFindNames$", TimeoutS: 600})
+		p.Shards = append(p.Shards, ev.ShardSpec{Name: "history-0", Test: "^TestFindHistory$", TimeoutS: 600})
 	}
 	if err := ev.WritePlan(p); err != nil {
 		t.Fatal(err)
@@ -317,20 +323,20 @@ func TestFindUnprivileged(t *testing.T) {
 	s.Watchdog(10*time.Second, 4<<30)
 	defer s.Done()
 	base := filepath.Join(findBase(t), "perm")
-	modes := []int{0o755, 0o311, 0}
+	modes := []int{0o755, 0o311, 0, 0o444} // 0444: may be listed, not entered (nothing in it can be examined)
 	seen := map[string]bool{}
 	const depth = 3
 	var idx uint64
 	for sp := 0; sp < 1<<depth; sp++ {
-		for m := 0; m < 27; m++ {
+		for m := 0; m < 64; m++ {
 			for start := 0; start < depth; start++ {
 				for stop := -1; stop <= start; stop++ {
 					c := PermCase{Start: start, Stop: stop}
 					mm := m
 					for l := 0; l < depth; l++ {
 						c.Spok = append(c.Spok, sp&(1<<l) != 0)
-						c.Modes = append(c.Modes, modes[mm%3])
-						mm /= 3
+						c.Modes = append(c.Modes, modes[mm%4])
+						mm /= 4
 					}
 					idx++
 					data, _ := json.Marshal(c)
@@ -387,6 +393,97 @@ func TestFindRelative(t *testing.T) {
 					if f := execFind(s, base, c); f != nil {
 						s.Violation("find", f.Sig, f.Msg, f.Size, c)
 					}
+				}
+			}
+		}
+	}
+	if s.Failed() {
+		t.Fatal("violations recorded")
+	}
+}
+
+// TestFindNames: every odd directory name (pattern characters, blanks, format verbs, other scripts)
+// in every position of a chain of three levels, with a look-alike sibling that has a spokfile.
+func TestFindNames(t *testing.T) {
+	s := ev.Open(t, "C17")
+	s.Watchdog(10*time.Second, 4<<30)
+	defer s.Done()
+	base := findBase(t)
+	seen := map[string]bool{}
+	var idx uint64
+	for _, n1 := range FindChildNames {
+		for _, n2 := range FindChildNames {
+			if !(n2 == "t" || n1 == "d" || n1 == n2) {
+				continue // one odd name at a time, or the same one twice
+			}
+			for _, cfg := range [][]int{{lvSpokfile, lvNothing, lvNothing}, {lvNothing, lvSpokfile, lvNothing}, {lvNothing, lvNothing, lvSpokfile}, {lvNothing, lvNothing, lvNothing}, {lvSpokfile, lvSpokBefore, lvDirSpok}} {
+				c := FindCase{Cfg: cfg, Child: []string{n1, n2}}
+				if err := c.build(base); err != nil {
+					t.Fatal(err)
+				}
+				for start := 0; start < 3; start++ {
+					for _, stop := range []int{0, 1, -1} {
+						c.Start, c.Stop = start, stop
+						idx++
+						data, _ := json.Marshal(c)
+						s.Progress(idx, data)
+						s.Tick()
+						s.Eval()
+						s.Class("odd_directory_names")
+						if f := execFind(s, base, c); f != nil && !seen[f.Sig] {
+							seen[f.Sig] = true
+							s.Violation("find", f.Sig, f.Msg, f.Size, c)
+						}
+					}
+				}
+			}
+		}
+	}
+	if s.Failed() {
+		t.Fatal("violations recorded")
+	}
+}
+
+// TestFindHistory: one process searches again and again while spokfiles come and go on the chain:
+// every sequence of up to three changes (a spokfile appears at / disappears from one of three levels),
+// a search after each, for two stop directories. A search knows nothing of the one before.
+func TestFindHistory(t *testing.T) {
+	s := ev.Open(t, "C17")
+	s.Watchdog(10*time.Second, 4<<30)
+	defer s.Done()
+	base := findBase(t)
+	seen := map[string]bool{}
+	var idx uint64
+	for seq := 0; seq < 3*3*3; seq++ {
+		for _, stop := range []int{0, 1} {
+			c := FindCase{Cfg: []int{lvSpokfile, lvNothing, lvNothing}, Child: []string{"d", "t"}, Start: 2, Stop: stop}
+			if err := c.build(base); err != nil {
+				t.Fatal(err)
+			}
+			dirs := c.dirs(base)
+			k := seq
+			for step := 0; step < 4; step++ {
+				if step > 0 {
+					// toggle the spokfile of one level
+					p := filepath.Join(dirs[k%3], "spokfile")
+					k /= 3
+					if _, err := os.Lstat(p); err == nil {
+						_ = os.Remove(p)
+					} else {
+						_ = os.WriteFile(p, []byte("# x\n"), 0o644)
+					}
+				}
+				idx++
+				data, _ := json.Marshal(map[string]any{"toggles": seq, "after_step": step, "stop": stop})
+				s.Progress(idx, data)
+				s.Tick()
+				s.Eval()
+				s.Class("searches_in_one_process_while_spokfiles_come_and_go")
+				s.NonTrivial("hist" + string(data))
+				if f := execFind(s, base, c); f != nil && !seen[f.Sig] {
+					seen[f.Sig] = true
+					f.Msg = fmt.Sprintf("after %d change(s) of sequence %d (spokfiles toggled at levels, base 3 digits): %s", step, seq, f.Msg)
+					s.Violation("find", f.Sig, f.Msg, f.Size, c)
 				}
 			}
 		}
@@ -532,6 +629,8 @@ func replayOther(t *testing.T, v ev.Violation, raw []byte) *rp.Fail {
 		return execForce(nil, newBox(t), c)
 	case "vars-inproc":
 		return execVarsInProcess(t, nil)
+	case "readfault":
+		return execReadFaults(t, nil, newBox(t))
 	case "unpriv-find":
 		var c PermCase
 		if err := json.Unmarshal(raw, &c); err != nil {
@@ -604,7 +703,11 @@ func TestFindBinary(t *testing.T) {
 		for i := 0; i < d; i++ {
 			c.Cfg = append(c.Cfg, rapid.IntRange(0, nLevelCfg-1).Draw(rt, "cfg"))
 			if i+1 < d {
-				c.Child = append(c.Child, rapid.SampledFrom([]string{"d", "t"}).Draw(rt, "child"))
+				if rapid.IntRange(0, 2).Draw(rt, "odd_child") == 0 {
+					c.Child = append(c.Child, rapid.SampledFrom(FindChildNames).Draw(rt, "child_name"))
+				} else {
+					c.Child = append(c.Child, rapid.SampledFrom([]string{"d", "t"}).Draw(rt, "child"))
+				}
 			}
 		}
 		c.Start = rapid.IntRange(0, d-1).Draw(rt, "start")
@@ -694,6 +797,30 @@ func execFindBinary(s *ev.Shard, b *sandbox.Box, c FindCase) *rp.Fail {
 			return &rp.Fail{Sig: "wrong-spokfile", Size: size, Msg: fmt.Sprintf("%s: spok used %q, not the nearest spokfile above cwd", desc, rel(base, found))}
 		}
 	}
+	// whatever spok is asked to do from there, it works on the same spokfile (or finds none)
+	for _, action := range []string{"--vars", "--clean", "-c"} {
+		r2 := b.Run(cwd, []string{"HOME=" + stop, "PWD=" + pwd}, 20*time.Second, action)
+		if r2.TimedOut {
+			return &rp.Fail{Sig: "process-stalled", Size: size, Msg: fmt.Sprintf("%s, then `spok %s`: did not terminate within 20 s", desc, action)}
+		}
+		used := ""
+		for _, l := range strings.Split(sandbox.Strip(r2.Stdout), "\n") {
+			if strings.HasPrefix(l, "Variables defined in ") {
+				used = strings.TrimSuffix(strings.TrimPrefix(l, "Variables defined in "), ":")
+				if r, err := filepath.EvalSymlinks(used); err == nil {
+					used = r
+				}
+			}
+		}
+		switch {
+		case res.Exit == 0 && found != "" && r2.Exit != 0:
+			return &rp.Fail{Sig: "spokfile-missed", Size: size, Msg: fmt.Sprintf("%s: --show used %s, but `spok %s` from the same directory failed (exit %d, stderr %q)", desc, rel(base, found), action, r2.Exit, sandbox.Strip(r2.Stderr))}
+		case res.Exit == 0 && found != "" && used != "" && used != found:
+			return &rp.Fail{Sig: "wrong-spokfile", Size: size, Msg: fmt.Sprintf("%s: --show used %s, `spok %s` from the same directory used %s", desc, rel(base, found), action, rel(base, used))}
+		case res.Exit != 0 && r2.Exit == 0 && strings.Contains(strings.ToLower(sandbox.Strip(res.Stderr)), "no spokfile"):
+			return &rp.Fail{Sig: "found-above-stop", Size: size, Msg: fmt.Sprintf("%s: --show found no spokfile, yet `spok %s` from the same directory succeeded: %q", desc, action, sandbox.Strip(r2.Stdout))}
+		}
+	}
 	if s != nil {
 		s.NonTrivial("bin" + fmt.Sprint(c.Cfg, c.Child, c.Start, c.Stop, c.ViaSymlink, c.StalePWD))
 		if c.StalePWD > 0 && c.StalePWD-1 != c.Start {
@@ -756,6 +883,23 @@ func TestSkipTemplates(t *testing.T) {
 			}
 		}
 	}
+	// an invocation that cannot write the cache file, between ordinary ones: whatever was recorded for
+	// the tasks it did not run still counts afterwards
+	for _, edit := range []string{"in.txt", "data.json"} {
+		for _, w := range ways {
+			for _, fl := range [][]string{nil, {"--json"}, {"--quiet"}} {
+				ro := w
+				ro.ROCache, ro.Flags = true, fl
+				c := SkipCase{NTasks: 2, FileDep: []string{"in.txt", "data.json"}, Deps: [][2]int{{0, 1}}, Steps: []SkipStep{w, {Edit: edit}, ro, w, w, {Edit: edit, Revert: true}, ro, w}}
+				s.Eval()
+				s.Class("enumerated_read_only_cache_between_runs")
+				if f := execSkip(id(), s, b, c); f != nil && !seen[f.Sig] {
+					seen[f.Sig] = true
+					s.Violation("skipbin", f.Sig, f.Msg, f.Size, c)
+				}
+			}
+		}
+	}
 	if s.Failed() {
 		t.Fatal("violations recorded")
 	}
@@ -771,6 +915,41 @@ func TestErrBinary(t *testing.T) {
 		}
 		return execErrBinary(s, b, c)
 	})
+}
+
+// TestGraphTemplates: every spelling of a name that names no task x its place among the requested
+// names x flags, on a two-task chain; and the same requests with every name defined.
+func TestGraphTemplates(t *testing.T) {
+	s := ev.Open(t, "C03")
+	b := newBox(t)
+	seen := map[string]bool{}
+	spellings := []string{"notatask", "", " ", "\t", "  ", "ALPHA", "alpha ", " alpha", "alph", "alphaa", "alpha,bravo", "-"}
+	for _, flags := range [][]string{nil, {"--force"}, {"--json"}, {"--quiet"}} {
+		for _, req := range [][]int{{0}, {1}, {0, 1}, {1, 0}} {
+			for pos := 0; pos <= len(req)+1; pos++ {
+				for i := range spellings {
+					c := GraphBinCase{N: 2, Edges: [][2]int{{0, 1}}, Via: "name", Undef: -1, Flags: flags, Req: req}
+					if pos > 0 {
+						c.ReqUndef, c.UndefName = pos, &spellings[i]
+					} else if i > 0 {
+						continue
+					}
+					if c.UndefName != nil && *c.UndefName == "-" && pos != len(req)+1 {
+						continue // a lone dash is only safely an argument at the end
+					}
+					s.Eval()
+					s.Class("enumerated_undefined_requests")
+					if f := execGraphBin(s, b, c); f != nil && !seen[f.Sig] {
+						seen[f.Sig] = true
+						s.Violation("graphbin", f.Sig, f.Msg, f.Size, c)
+					}
+				}
+			}
+		}
+	}
+	if s.Failed() {
+		t.Fatal("violations recorded")
+	}
 }
 
 func TestGraphBinary(t *testing.T) {
@@ -867,9 +1046,194 @@ func TestFmtBoundary(t *testing.T) {
 			}
 		}
 	}
+	// dependency and output lists with entries that name the project directory itself or nothing
+	// (".", "./", ""): every list of up to three entries over them and a file name, and a few longer ones
+	elems := []string{".", "./", "", "a.go"}
+	var lists [][]string
+	var grow func(prefix []string, left int)
+	grow = func(prefix []string, left int) {
+		if len(prefix) > 0 {
+			lists = append(lists, append([]string(nil), prefix...))
+		}
+		if left == 0 {
+			return
+		}
+		for _, e := range elems {
+			grow(append(prefix, e), left-1)
+		}
+	}
+	grow(nil, 3)
+	lists = append(lists, []string{".", "a.go", ".", "b.go"}, []string{"a.go", ".", ".", "b.go"}, []string{".", ".", "a.go", "."}, []string{"", "a.go", "./", "b.go", "."})
+	for _, l := range lists {
+		var q []string
+		for _, e := range l {
+			q = append(q, "\""+e+"\"")
+		}
+		for _, src := range []string{
+			"task t(" + strings.Join(q, ", ") + ") {\n    echo hi\n}\n",
+			"task t(" + strings.Join(q, ",") + ") -> (" + strings.Join(q, ", ") + ") {\n    echo hi\n}\n",
+		} {
+			n++
+			c := FmtCase{Src: src}
+			s.Eval()
+			s.Class("fmt_lists_with_entries_naming_the_project_itself")
+			if f := execFmtBinary(id(), s, b, c); f != nil && !seen[f.Sig] {
+				seen[f.Sig] = true
+				s.Violation("fmtbin", f.Sig, f.Msg, f.Size, c)
+			}
+		}
+	}
+	// the formatted text is longer than the file and the file may not grow (a full disk, a quota)
+	for _, src := range []string{"X:=\"a\"\ntask t(){echo hi}\n", "#c\nA:=\"1\"\nB:=join(\"a\",\"b\")\n", "task a(\"x\",\"y\")->\"z\"{\necho one\necho two\n}\n", "# doc\ntask t() {\n\techo hi\n}\n"} {
+		n++
+		c := FmtCase{Src: src, FileLimit: true}
+		s.Eval()
+		s.Class("fmt_where_the_file_may_not_grow")
+		if f := execFmtBinary(id(), s, b, c); f != nil && !seen[f.Sig] {
+			seen[f.Sig] = true
+			s.Violation("fmtbin", f.Sig, f.Msg, f.Size, c)
+		}
+	}
+	// whole files around and beyond 1 MiB (and a few MiB): nothing bounds the length of a spokfile, and
+	// what comes last in it counts as much as what comes first
+	for _, total := range []int{1<<20 - 64, 1 << 20, 1<<20 + 64, 2<<20 + 3, 5 << 20} {
+		for kind := 0; kind < 3; kind++ {
+			var sb strings.Builder
+			sb.WriteString("FIRST := \"head\"\n\n")
+			for i := 0; sb.Len() < total; i++ {
+				switch kind {
+				case 0:
+					fmt.Fprintf(&sb, "# note number %d about nothing in particular\n", i)
+				case 1:
+					fmt.Fprintf(&sb, "V%s := \"value %d\"\n", gen.Letters(i), i)
+				default:
+					fmt.Fprintf(&sb, "# does t%s\ntask t%s(\"in.txt\") {\n    echo %d\n}\n\n", gen.Letters(i), gen.Letters(i), i)
+				}
+			}
+			sb.WriteString("\n# the last one\ntask last() {\n    echo last\n}\n\nLAST := \"tail\"\n")
+			n++
+			c := FmtCase{Src: sb.String()}
+			s.Eval()
+			s.Class("fmt_file_of_a_megabyte_or_more")
+			if f := execFmtBinary(id(), s, b, c); f != nil && !seen[f.Sig] {
+				seen[f.Sig] = true
+				s.Violation("fmtbin", f.Sig, f.Msg, f.Size, c)
+			}
+		}
+	}
 	if s.Failed() {
 		t.Fatal("violations recorded")
 	}
+}
+
+// TestReadFaults (C06 binary leg): the ways reading a file can go other than "all at once": the N-th
+// read of the spokfile fails with EIO (strace fault injection), or the spokfile is a named pipe that
+// delivers its bytes in bursts. spok either says it could not read the file (non-zero exit), or lists
+// exactly what it lists for the same bytes in a regular file - never a part of them as if it were all.
+func TestReadFaults(t *testing.T) {
+	s := ev.Open(t, "C06")
+	if f := execReadFaults(t, s, newBox(t)); f != nil || s.Failed() {
+		t.Fatal("violations recorded")
+	}
+}
+
+// execReadFaults runs the whole (small) space; with s == nil (replay) it returns the first failure.
+func execReadFaults(t *testing.T, s *ev.Shard, b *sandbox.Box) *rp.Fail {
+	var sb strings.Builder
+	sb.WriteString("FIRST := \"head\"\n\n")
+	for i := 0; sb.Len() < 20000; i++ {
+		fmt.Fprintf(&sb, "# does t%s\ntask t%s(\"in.txt\") {\n    echo %d\n}\n\nV%s := \"value %d\"\n\n", gen.Letters(i), gen.Letters(i), i, gen.Letters(i), i)
+	}
+	sb.WriteString("LAST := \"tail\"\n")
+	src := sb.String()
+	seen := map[string]bool{}
+	var first *rp.Fail
+	report := func(sig, msg string, c any) {
+		if first == nil {
+			first = &rp.Fail{Sig: sig, Msg: msg, Size: 1}
+		}
+		if !seen[sig] && s != nil {
+			seen[sig] = true
+			s.Violation("readfault", sig, msg, 1, c)
+		}
+	}
+	eval := func(class string, c any) {
+		if s != nil {
+			s.Eval()
+			s.Class(class)
+			s.NonTrivial(fmt.Sprint(c))
+		}
+	}
+	setup := func() (string, bool) {
+		if err := b.ResetAs(""); err != nil {
+			t.Fatal(err)
+		}
+		if err := writeProject(b, b.Proj, map[string]string{"spokfile": src, "in.txt": "x"}); err != nil {
+			t.Fatal(err)
+		}
+		return filepath.Join(b.Proj, "spokfile"), true
+	}
+	baseline := map[string]string{}
+	path, _ := setup()
+	for _, action := range []string{"--show", "--vars"} {
+		r := b.Run(b.Proj, nil, runTimeout, action)
+		if r.Exit != 0 {
+			t.Fatalf("harness: %s on the unharmed file failed: %s", action, r.Stderr)
+		}
+		baseline[action] = sandbox.Strip(r.Stdout)
+	}
+	if stracePath != "" {
+		for when := 1; when <= 8; when++ {
+			for _, action := range []string{"--show", "--vars"} {
+				c := map[string]any{"spokfile_bytes": len(src), "action": action, "read_that_fails": when}
+				eval("read_error_on_the_spokfile", c)
+				wrapper := []string{stracePath, "-f", "-qq", "-o", "/dev/null", "-P", path, "-e", "trace=read", "-e", fmt.Sprintf("inject=read:error=EIO:when=%d", when)}
+				r := b.RunWrapped(wrapper, b.Proj, nil, runTimeout, action)
+				if r.Exit == 0 && sandbox.Strip(r.Stdout) != baseline[action] {
+					report("part-of-the-file-taken-for-all", fmt.Sprintf("a spokfile of %d bytes whose read number %d fails with EIO: `spok %s` exits 0 and prints\n%s\ninstead of failing or printing what it prints for the whole file (%d bytes of listing)", len(src), when, action, clip(sandbox.Strip(r.Stdout)), len(baseline[action])), c)
+				}
+			}
+		}
+	} else if s != nil {
+		s.Note("strace not available: read errors on the spokfile were not injected")
+	}
+	// a named pipe that delivers the bytes in bursts
+	for _, cut := range []int{1, 100, 4096, 4097, 8192, len(src) / 2, len(src) - 1} {
+		for _, action := range []string{"--show", "--vars"} {
+			path, _ := setup()
+			_ = os.Remove(path)
+			if err := syscall.Mkfifo(path, 0o666); err != nil {
+				t.Fatal(err)
+			}
+			_ = b.Own()
+			c := map[string]any{"spokfile_bytes": len(src), "action": action, "pipe_first_burst": cut}
+			eval("spokfile_is_a_pipe_written_in_bursts", c)
+			done := make(chan struct{})
+			go func() {
+				defer close(done)
+				f, err := os.OpenFile(path, os.O_WRONLY, 0)
+				if err != nil {
+					return
+				}
+				defer f.Close()
+				_, _ = f.WriteString(src[:cut])
+				time.Sleep(30 * time.Millisecond)
+				_, _ = f.WriteString(src[cut:])
+			}()
+			r := b.Run(b.Proj, nil, runTimeout, action)
+			if r.TimedOut {
+				// nobody opened the pipe for reading: unblock the writer
+				if f, err := os.OpenFile(path, os.O_RDONLY|syscall.O_NONBLOCK, 0); err == nil {
+					_ = f.Close()
+				}
+			}
+			<-done
+			if r.Exit == 0 && sandbox.Strip(r.Stdout) != baseline[action] {
+				report("part-of-the-file-taken-for-all", fmt.Sprintf("the same %d bytes read from a named pipe that delivers %d bytes first and the rest 30 ms later: `spok %s` exits 0 and prints\n%s\ninstead of what it prints for the regular file", len(src), cut, action, clip(sandbox.Strip(r.Stdout))), c)
+			}
+		}
+	}
+	return first
 }
 
 func TestDigestBinary(t *testing.T) {
@@ -936,6 +1300,37 @@ func TestWriteTemplates(t *testing.T) {
 					}
 					s.Eval()
 					s.Class("enumerated_ordinary_project")
+					if f := execWrite(s, b, c); f != nil && !seen[f.Sig] {
+						seen[f.Sig] = true
+						s.Violation("write", f.Sig, f.Msg, f.Size, c)
+					}
+					if fl != nil && fl[0] == "--fmt" {
+						c.ROSpok = true // the same with a spokfile that cannot be written
+						s.Eval()
+						s.Class("enumerated_ordinary_project")
+						if f := execWrite(s, b, c); f != nil && !seen[f.Sig] {
+							seen[f.Sig] = true
+							s.Violation("write", f.Sig, f.Msg, f.Size, c)
+						}
+					}
+				}
+			}
+		}
+	}
+	// tasks called what flags and actions are called, asked for by name from the project and from below it
+	var fl strings.Builder
+	fl.WriteString("V := \"value\"\n\n")
+	flagLike := []string{"init", "fmt", "clean", "show", "vars", "version", "help", "force", "spokfile", "json", "quiet", "debug"}
+	for _, n := range flagLike {
+		fmt.Fprintf(&fl, "# the task called %s\ntask %s(\"**/*.go\") {\n    echo %s {{.V}}\n}\n\n", n, n, n)
+	}
+	for _, dir := range []string{"", "proj [v2]", "my proj"} {
+		for _, nested := range []bool{false, true} {
+			for _, n := range flagLike {
+				for _, extra := range [][]string{nil, {"--force"}, {"--quiet"}} {
+					c := WriteCase{Tree: tree, Class: "valid", Src: fl.String(), Flags: extra, Tasks: []string{n}, Nested: nested, ProjDir: dir}
+					s.Eval()
+					s.Class("enumerated_tasks_named_like_flags")
 					if f := execWrite(s, b, c); f != nil && !seen[f.Sig] {
 						seen[f.Sig] = true
 						s.Violation("write", f.Sig, f.Msg, f.Size, c)
@@ -1128,9 +1523,17 @@ func TestKillPrefixes(t *testing.T) {
 				}
 				steps := append(append([]KStep(nil), prefix...), run("A", "B"), KStep{Op: "truncate", CutAbs: k})
 				steps = append(steps, cont...)
-				steps = append(steps, run("A", "B"))
 				s.Class("enumerated_cache_prefix")
-				one(KillCase{Tasks: prog, Init: init, Steps: steps})
+				one(KillCase{Tasks: prog, Init: init, Steps: append(append([]KStep(nil), steps...), run("A", "B"))})
+				if ci == 2 || ev.Thorough() {
+					// the same with the results asked for as JSON / with output silenced
+					for _, fl := range [][]string{{"--json"}, {"--quiet"}} {
+						final := run("A", "B")
+						final.Flags = fl
+						s.Class("enumerated_cache_prefix_reporting_flags")
+						one(KillCase{Tasks: prog, Init: init, Steps: append(append([]KStep(nil), steps...), final)})
+					}
+				}
 			}
 		}
 	}
